@@ -62,6 +62,21 @@ Theorem C12_polls_are_the_run : forall n w e req,
   = call_evs e req ++ concat (map (fun x : nat * pres * list event => snd x) (polls n w (call_fut e req))).
 Proof. exact run_call_log. Qed.
 
+(* Factory futures (is_none guards of the and_then factory future, Option::take of the closures,
+   the A/B/C state machines of apply / apply_cfg_factory).  Every poll the executor makes on the
+   future of ANY factory tree with ANY config:  does not panic;  logs only init-future polls and
+   readiness polls (apply_cfg_factory's wait) that carry the waker of this very poll, never a poll
+   of an init future that had already completed (no EvInitDone), never a second new_service;  and
+   if it returns Pending, some inner init future or some leaf's readiness answered Pending to the
+   current waker in this poll. *)
+Theorem C12_factory_polls : forall f c n w, Forall fgood_poll (fpolls n w (new_fut f c)).
+Proof. exact new_polls_good. Qed.
+
+Theorem C12_factory_polls_are_the_run : forall n w f c,
+  snd (run_new n w f c)
+  = new_evs f c ++ concat (map (fun x : nat * ipres * list event => snd x) (fpolls n w (new_fut f c))).
+Proof. exact run_new_log. Qed.
+
 (* non-vacuity: and_then over a pending and a ready-later leaf; an error mapped twice *)
 Definition ex_a := Leaf 0 [RPending; ROk] (fun r => (0%nat, Ok r)).
 Definition ex_b := Leaf 1 [RPending; RPending; RErr 3] (fun r => (1%nat, Ok r)).
@@ -83,6 +98,13 @@ Example C12_example_polls :
      (9%nat, PReady (Ok 8), [EvPoll 1 9 (PReady (Ok 4)); EvMap KOk (MMul 2) 4])].
 Proof. vm_compute. reflexivity. Qed.
 
+Example C12_example_factory_polls :
+  fpolls 10 0 (new_fut (FAndThen (FLeafF 0 LDirect (fun _ => (0%nat, IOk ex_a))) (FLeafF 1 LDirect (fun _ => (2%nat, IOk ex_b)))) None)
+  = [(0%nat, IPending, [EvInit 0 0 false; EvInit 1 0 true]);
+     (1%nat, IPending, [EvInit 1 1 true]);
+     (2%nat, IReady (IOk (AndThen ex_a ex_b)), [EvInit 1 2 false])].
+Proof. vm_compute. reflexivity. Qed.
+
 Print Assumptions C12_ready_conj.
 Print Assumptions C12_ready_polls_all.
 Print Assumptions C12_waker.
@@ -90,3 +112,5 @@ Print Assumptions C12_pending_has_cause.
 Print Assumptions C12_ready_err.
 Print Assumptions C12_future_polls.
 Print Assumptions C12_polls_are_the_run.
+Print Assumptions C12_factory_polls.
+Print Assumptions C12_factory_polls_are_the_run.
